@@ -117,11 +117,14 @@ class CAddi(RiscvcInstruction):
     syntax = Syntax(["c", ".", "addi", " ", rd, ",", " ", rd, ",", " ", imm])
 
     def encode(self):
+        if self.imm not in range(-32, 32):
+            raise ValueError(f"c.addi immediate {self.imm} out of range")
         tokens = self.get_tokens()
         tokens[0][0:2] = 0b01
-        tokens[0][2:7] = self.imm
+        tokens[0][2:7] = self.imm & 0x1F
         tokens[0][7:12] = self.rd.num
-        tokens[0][12:16] = 0b0000
+        tokens[0][12:13] = self.imm >> 5 & 1
+        tokens[0][13:16] = 0b000
         return tokens[0].encode()
 
 
